@@ -29,6 +29,7 @@ func c33Idents(src []byte) []string {
 // occurrence of a local carries one new name, distinct locals carry distinct
 // names, and no new name equals a name the script uses for something else.
 func VerifC33_renamedLocalsNeverCaptureOtherNames() {
+	sym.NondetMapOrder() // renameLocals ranges over a map of locals: every order is explored
 	g, h := c33Letter("G"), c33Letter("H")
 	var src string
 	var shape []int // per identifier token: 0 = keep as written, k>0 = occurrence of local k
@@ -50,7 +51,7 @@ func VerifC33_renamedLocalsNeverCaptureOtherNames() {
 	out := Minify([]byte(src), true)
 	after := c33Idents(out)
 	sym.Reach("renamed")
-	sym.Observe("out", string(out))
+	sym.Observe("outputLength", len(out)) // the text itself depends on map iteration order (which local gets which name)
 	sym.Assert(len(after) == len(before) && len(before) == len(shape), "renaming changed the number of identifiers")
 	if len(after) != len(before) || len(before) != len(shape) {
 		return
